@@ -139,7 +139,7 @@ def catalogue_shapes(tier="quick"):
             return [base, base + 1, base + 3, base + sp // 2, base + sp - 2, base + sp - 1, base + sp]
         add("holes_span_%d" % sp, span_shape)
     # the macro guesses pointer-sized reprs to be 32 bits wide: values and gaps around 2^31 / 2^32
-    psz = ["usize", "isize", "u64", "i64"]
+    psz = ["usize", "isize"]
     add("around_2_31_2_32",
         lambda r: [(1 << 31) - 1, 1 << 31, (1 << 31) + 1, (1 << 32) - 1, 1 << 32, (1 << 32) + 1] if r in psz else None, psz)
     add("gap_2_32_plus_1",
